@@ -160,7 +160,7 @@ def encOid (relative : Bool) (bs : Bytes) : Option Bytes :=
   | .ok arcs => some (joinDot arcs)
   | _ => none
 
-/-- the value asn1c substitutes for an absent DEFAULT component (`default_value_set`: BOOLEAN, INTEGER, ENUMERATED) -/
+/-- the value BASIC-XER substitutes for an absent DEFAULT component (`default_value_set`: BOOLEAN, INTEGER, ENUMERATED) -/
 def dfltVal (a : Attr) : Option Val :=
   match a.dflt with
   | some (.int d) => some (.int d)
@@ -228,18 +228,20 @@ def encTy (c : Bool) : XTy → Nat → Val → Option Bytes
       let es := bs.map (wrapSetOfElem c mode en il)
       (if c then sortBy bytesLe es else es).flatten ++ (if c then [] else indent (il - 1))
   | _, _, _ => none
-/-- SEQUENCE_encode_xer: the members in declaration order; an absent DEFAULT member is written with its
-    default value, an absent OPTIONAL member / extension addition is skipped -/
+/-- SEQUENCE_encode_xer: the members in declaration order.  BASIC-XER: an absent DEFAULT member is written with
+    its default value (`default_value_set && !xcan`), an absent OPTIONAL member / extension addition is skipped.
+    CANONICAL-XER: default values are not encoded - an absent member is skipped and so is a member that is stored
+    with its DEFAULT value (`xcan && default_value_cmp(..) == 0`) -/
 def encMembers (c : Bool) : List Bytes → List XTy → List Attr → Nat → List Val → Option Bytes
   | [], [], _, _, [] => some []
   | n :: ns, m :: ms, a :: as, il, v :: vs =>
     let v? : Option (Option Val) :=
       match v with
       | .absent =>
-        match dfltVal a with
+        match (if c then none else dfltVal a) with
         | some d => some (some d)
         | none => if omitable a then some none else none
-      | v => some (some v)
+      | v => if c && isDefault a v then some none else some (some v)
     match v?, encMembers c ns ms as il vs with
     | some none, some rest => some rest
     | some (some x), some rest =>
@@ -249,16 +251,17 @@ def encMembers (c : Bool) : List Bytes → List XTy → List Attr → Nat → Li
     | _, _ => none
   | _, _, _, _, _ => none
 /-- SET_encode_xer, member number `k`: an absent member is skipped when OPTIONAL / DEFAULT / addition,
-    unless it is stored inline (DEFAULT 0 of a native type) -/
+    unless it is stored inline (DEFAULT 0 of a native type: BASIC-XER writes the 0 it finds there);
+    CANONICAL-XER skips every member that holds its DEFAULT value, the inline one included -/
 def encNth (c : Bool) : List Bytes → List XTy → List Attr → Nat → List Val → Nat → Option Bytes
   | n :: _, m :: _, a :: _, il, v :: _, 0 =>
     let v? : Option (Option Val) :=
       match v with
       | .absent =>
-        match inlineDflt m a with
+        match (if c then none else inlineDflt m a) with
         | some d => some (some d)
         | none => if omitable a then some none else none
-      | v => some (some v)
+      | v => if c && isDefault a v then some none else some (some v)
     match v? with
     | some none => some []
     | some (some x) =>
